@@ -259,3 +259,34 @@ func NumberLit(t *rapid.T, o NumOpt) string {
 
 // MalformedNumber draws a token that looks like a number but is not one.
 func MalformedNumber(t *rapid.T) string { return pick(t, "badnum", malformedNumbers) }
+
+// NearNumber draws text for a json.Number that is close to, but usually not, a JSON number: a listed malformed
+// token, or a well-formed literal truncated, or with one byte inserted, replaced or removed. (It may come out
+// well-formed; the oracle decides.)
+func NearNumber(t *rapid.T) string {
+	switch rapid.IntRange(0, 5).Draw(t, "nearkind") {
+	case 0:
+		return MalformedNumber(t)
+	case 1:
+		return pick(t, "nearfixed", []string{"", " ", " 1", "1 ", "1\n", "\"1\"", "null", "true", "1e+", "1E-", "-", "-e1", "0e", "0.e1", "1.0e", "1.0e+", "-0.5E-", "1e+ 1", "1e1.0", "0x10", "1e1e1", "01e1", "-01.5", "1.5.", "+0"})
+	}
+	lit := NumberLit(t, NumOpt{})
+	i := rapid.IntRange(0, len(lit)).Draw(t, "nearpos")
+	ch := pick(t, "nearch", []string{"+", "-", ".", "e", "E", "0", "9", " ", "x", "\""})
+	switch rapid.IntRange(0, 3).Draw(t, "nearop") {
+	case 0: // truncate
+		return lit[:i]
+	case 1: // insert
+		return lit[:i] + ch + lit[i:]
+	case 2: // replace
+		if i < len(lit) {
+			return lit[:i] + ch + lit[i+1:]
+		}
+		return lit + ch
+	default: // remove
+		if i < len(lit) {
+			return lit[:i] + lit[i+1:]
+		}
+		return lit
+	}
+}
